@@ -311,17 +311,28 @@ def proofs(run, src, docs):
     res = _units(src, cases)
     mlines = "".join("L" + " ".join("((%s) %s)" % (" ".join(str(ord(ch)) for ch in ln[0]), " ".join(map(str, ln[1:]))) for ln in c["lines"]) + "\n" for c in cases)
     out = subprocess.run([exe], input=mlines, capture_output=True, text=True, timeout=1800).stdout.splitlines()
+    # the loop model of ParseLines.analyze (C02_lists_nest proves it equal to den_list) on the same lines
+    alines = "".join("A" + ln[1:] for ln in mlines.splitlines(True))
+    aout = subprocess.run([exe], input=alines, capture_output=True, text=True, timeout=1800).stdout.splitlines()
     dis = []
-    for c, o in zip(cases, out):
+    if len(aout) != len(cases) or len(out) != len(cases):
+        dis.append("driver returned %d / %d lines for %d line sets" % (len(out), len(aout), len(cases)))
+    for c, o, a in zip(cases, out, aout):
         real = res[c["id"]].get("out", res[c["id"]].get("exc"))
         try:
             m = json.loads(o)
         except ValueError:
             m = o
+        try:
+            am = json.loads(a)
+        except ValueError:
+            am = a
+        if am != real:
+            dis.append("lines %r: real %s | analyze_model %s" % ([ln[0] + ("+" if len(ln) > 2 else "") for ln in c["lines"]], json.dumps(real)[:300], str(a)[:300]))
         if m != real:
             dis.append("lines %r: real %s | den_list %s" % ([ln[0] + ("+" if len(ln) > 2 else "") for ln in c["lines"]], json.dumps(real)[:300], str(o)[:300]))
     run.tie("ParseLines: real pass on prefixed line token lists (with and without a top-level colon) vs extracted den_list "
-            "(the denoted prefix tree)", len(cases), dis)
+            "(the denoted prefix tree) and vs the extracted loop model analyze_model", len(cases), dis)
 
 
 def check(run):
